@@ -53,6 +53,11 @@ ASSUMPTIONS = [
     'an indication sent *by the peer* on the fixed channel is addressed to the device\'s client role, which may '
     'confirm it; that confirmation is not a server reply',
     'indications are always confirmed within 30 virtual seconds (behaviour after a transaction timeout is not judged)',
+    'a bearer on which a request went unanswered is not used any further (for a client it has failed, Part F 3.3.3); '
+    'in a pipelined window only the first unanswered request is reported, under the label "pipelined"',
+    'after a window in which an exception escaped the stack, one extra Read Request probes that the bearer still answers',
+    'on an enhanced bearer one SDU is one ATT PDU; what the server handed to its channel is observed only to name SDUs '
+    'that are not exactly one PDU (merged / spread) and to judge the PDUs as written',
 ]
 MIN_EVENTS = {
     # counts on the unchanged tree are lower than on a fixed one: a bearer on which a request went
@@ -61,10 +66,10 @@ MIN_EVENTS = {
               'unknown_opcodes_judged': 800, 'mtu_checks': 4000, 'indications_seen': 400, 'notifications_seen': 2000,
               'opcodes_swept': 256, 'eatt_requests': 1800, 'server_pdus_exactly_mtu': 1400, 'sequences': 600,
               'eatt_exchange_mtu_probes': 20},
-    'thorough': {'requests_judged': 18000, 'requests_answered_once': 15000, 'non_requests_judged': 17000,
-                 'unknown_opcodes_judged': 8000, 'mtu_checks': 40000, 'indications_seen': 4000,
-                 'notifications_seen': 20000, 'opcodes_swept': 2560, 'eatt_requests': 18000,
-                 'server_pdus_exactly_mtu': 14000, 'sequences': 6000, 'eatt_exchange_mtu_probes': 200},
+    'thorough': {'requests_judged': 72000, 'requests_answered_once': 60000, 'non_requests_judged': 68000,
+                 'unknown_opcodes_judged': 32000, 'mtu_checks': 160000, 'indications_seen': 16000,
+                 'notifications_seen': 80000, 'opcodes_swept': 10240, 'eatt_requests': 72000,
+                 'server_pdus_exactly_mtu': 56000, 'sequences': 24000, 'eatt_exchange_mtu_probes': 800},
 }
 CASE_TIMEOUT = 300
 
@@ -75,7 +80,7 @@ KINDS = ['static'] * 10 + ['dyn', 'dyn-v2', 'dyn-async', 'dyn-atterr', 'dyn-rais
 
 def plan(tier, seed):
     cases = []
-    mult = 1 if tier == 'quick' else 10
+    mult = 1 if tier == 'quick' else 40
     base = seed * 1000003
     # sweep: 64 cases x 4 opcodes = all 256 opcodes, per repetition
     for rep in range(mult):
@@ -713,7 +718,7 @@ async def run_case(case, r: R):
 
 LEVEL_TEXT = ('Request/response pairing automaton (exactly one matching reply per defined request, none for '
               'non-requests, every server PDU <= current ATT_MTU and well-formed, <= 1 indication outstanding) evaluated '
-              'at every quiescence point of ~216 (quick) / ~2160 (thorough) generated sessions against a real bumble GATT '
+              'at every quiescence point of 264 (quick) / 10560 (thorough) generated sessions against a real bumble GATT '
               'server: all 256 opcodes x body shapes on the fixed and on hand-driven enhanced bearers, request sequences '
               'from a grammar of valid and invalid parameter forms over generated databases (every permission byte, values '
               '0..512 bytes, 16/32/128-bit types, callbacks that sleep, refuse or raise), MTUs 23..517, notifications and '
